@@ -332,7 +332,20 @@ func Ident(v any) string {
 func (g *Gen) SimpleFilter() *jpref.Eq {
 	k := g.Keys[g.R.Intn(len(g.Keys))]
 	k2 := g.Keys[g.R.Intn(len(g.Keys))]
-	switch g.R.Intn(13) {
+	switch g.R.Intn(14) {
+	case 13:
+		// a nested filter whose own operand is rooted at the document: the inner $ is still the document,
+		// not the element the outer filter is looking at
+		root := P(Root(), Child(k2))
+		if g.R.Intn(2) == 0 {
+			root = P(Root(), Nth(g.R.Intn(3)))
+		}
+		op := []string{"gt", "lt", "neq", "eq", "gte"}[g.R.Intn(5)]
+		inner := Filter(Bin(op, []*jpref.Eq{P(At()), P(At(), Child(k))}[g.R.Intn(2)], root))
+		if g.R.Intn(2) == 0 {
+			return Bin("exists", P(At(), inner), CBool(g.R.Intn(4) != 0))
+		}
+		return Bin("exists", P(At(), Child(k), inner), CBool(true))
 	case 10:
 		// an operand rooted at the document ($), compared with one rooted at the element
 		root := P(Root(), Child(k2))
